@@ -304,6 +304,7 @@ func (a Action) split(pipelines bool) Action {
 			context = NewContext(tokens.Words().Strings()...)
 		}
 
+		action := a
 		originalValue := c.Value
 		prefix := originalValue[:tokens.Words().CurrentToken().Index]
 		c.Args = context.Args
@@ -315,11 +316,11 @@ func (a Action) split(pipelines bool) Action {
 				LOG.Printf("completing files for redirect arg %#v", tokens.Words().CurrentToken().Value)
 				prefix = originalValue[:tokens.CurrentToken().Index]
 				c.Value = tokens.CurrentToken().Value
-				a = ActionFiles()
+				action = ActionFiles()
 			}
 		}
 
-		invoked := a.Invoke(c)
+		invoked := action.Invoke(c)
 		for index, value := range invoked.action.rawValues {
 			if !invoked.action.meta.Nospace.Matches(value.Value) || strings.Contains(value.Value, " ") { // TODO special characters
 				switch tokens.CurrentToken().State {
